@@ -58,6 +58,8 @@ def solve_and_judge(ctx, case, accept, skip_if_polarity_lost=True, solve_kw=None
                 H.solve(sysobj, ta=kw.get("ta", 25.0) + 41.5, energy=not kw.get("energy", False), tags={"pre": 1})
             elif pre == "sibling_system":
                 _sibling(sysobj, spec, case.get("hseed", 0))
+            elif pre == "decoy_components":
+                decoys(spec, case.get("hseed", 0))
             elif pre == "phases":
                 H.call(sysobj.phases)
             elif pre == "save":
@@ -96,9 +98,48 @@ def random_call_context(rng):
     if rng.random() < 0.2:
         kw["phase"] = "<some>"
     pre = [rng.choice(["solve", "solve_phase", "rail_rep", "params", "solve_loose", "solve_other_args", "solve_other_args", "phases", "save",
-                       "sibling_system"])
+                       "sibling_system", "decoy_components", "decoy_components"])
            for _ in range(rng.choice([0, 0, 1, 2]))]
     return {"kw": kw, "pre": pre, "phase_pick": rng.randrange(8), "history": rng.choice(HISTORIES), "hseed": rng.randrange(1 << 30)}
+
+
+def decoys(spec, seed=0):
+    """Free-standing components of the same kinds with OTHER parameter values (scaled numbers, reversed lists, scaled
+    tables) are constructed - and dropped - right before the judged call: whatever a class (rather than an instance)
+    remembers from the latest constructor call must not reach the components of the system under test."""
+    import copy
+    import random
+
+    from .. import loader
+
+    ns = loader.load()
+    rng = random.Random(seed ^ 0xDEC0)
+
+    def other(v):
+        if isinstance(v, bool):
+            return v
+        if isinstance(v, (int, float)):
+            return v * rng.choice([0.37, 1.9, 4.3])
+        if isinstance(v, list):
+            return [other(x) for x in reversed(v)]
+        if isinstance(v, dict):
+            d = copy.deepcopy(v)
+            for k_, x in d.items():
+                if k_ not in ("vi", "io"):
+                    d[k_] = [[min(0.99, y * 0.8) if k_ == "eff" else y * 2.5 for y in row] for row in x]
+            return d
+        return v
+
+    n = 0
+    for c in spec["comps"]:
+        a = {k_: other(v) for k_, v in c["args"].items()}
+        if c["kind"] == "Converter" and isinstance(a.get("eff"), (int, float)):
+            a["eff"] = min(0.99, max(0.05, a["eff"]))
+        if c["kind"] == "LinReg":
+            a.pop("vdrop", None)
+        st, _ = H.call(ns.KINDS[c["kind"]], "decoy %s" % c["name"], **a)
+        n += st == "ok"
+    return n
 
 
 def _sibling(sysobj, spec, seed, reorder=False):
@@ -225,6 +266,14 @@ def build_with_history(ctx, spec, mode, hseed, kw=None, prefer=None):
             with H.quiet():
                 H.call(prefer, so) if callable(prefer) else H.call(getattr(so, prefer))
 
+    def maybe_copy(so):
+        # the analysed system is DEEP-COPIED and the edits are made on the copy (a what-if variant): the copy is a
+        # System in its own right, nothing in it may keep pointing into the original
+        if rng.random() < 0.3:
+            ctx.count("history", "edits made on a copy.deepcopy() of the analysed system")
+            return copy.deepcopy(so)
+        return so
+
     if mode == "solve_then_move_leaf":
         leaves = [c for c in spec["comps"] if c["kind"] in S.LOADS]
         rng.shuffle(leaves)
@@ -302,6 +351,7 @@ def build_with_history(ctx, spec, mode, hseed, kw=None, prefer=None):
                 if rng.random() < 0.5:
                     H.solve(so, **(kw or {}))
             pref(so)
+            so = maybe_copy(so)
             eff = copy.deepcopy(spec)
             em = S.comp_map(eff)
             for n in changed:
@@ -374,6 +424,7 @@ def build_with_history(ctx, spec, mode, hseed, kw=None, prefer=None):
                 H.solve(so, **(kw or {}))
                 H.call(so.rail_rep)
             pref(so)
+            so = maybe_copy(so)
             for c in pick:
                 so.change_comp(ren[c["name"]], comp=S.make_comp(ns, c), group=c.get("group", ""), rail=c.get("rail", ""))
                 if c.get("phase") is not None:
@@ -416,6 +467,7 @@ def build_with_history(ctx, spec, mode, hseed, kw=None, prefer=None):
             with H.quiet():
                 H.solve(so, **(kw or {}))
             pref(so)
+            so = maybe_copy(so)
             for n in tuned:
                 c = cm[n]
                 so.change_comp(n, comp=S.make_comp(ns, c), group=c.get("group", ""), rail=c.get("rail", ""))
